@@ -1,17 +1,20 @@
 From UV Require Export Base.Common Model.Roller.
-(* One observed Dial: configured ids, working id before the call, ids the server accepts,
-   the ids whose ClientHello reached the server in order, what Dial returned,
-   and the working id recorded afterwards. *)
+(* One observed Dial: configured ids, working id before the call, the handshake timeout (ms),
+   the fingerprint of each ClientHello that reached the server, in order, with what the server did
+   with it (Serve 0 = handshake completed and the client used the connection, Serve T = the server
+   completed it but the client had given up, Refuse 0 = closed without completing, Silent = read the
+   hello and never answered), what Dial returned, and the working id recorded afterwards.
+   Fingerprints are given as the id-with-seed that produces them. *)
 Inductive case :=
-  CDial (ids : list id) (working : option id) (accepted : list id)
-        (trace : list id) (connected : option id) (tcp_err : bool) (working_after : option id).
+  CDial (ids : list hid) (working : option hid) (T : N) (trace : list (hid * peer_beh))
+        (connected : option hid) (tcp_err : bool) (working_after : option hid).
 
-Definition oid_eqb (a b : option id) : bool :=
-  match a, b with Some x, Some y => x =? y | None, None => true | _, _ => false end.
+Definition ohid_eqb (a b : option hid) : bool :=
+  match a, b with Some x, Some y => hid_eqb x y | None, None => true | _, _ => false end.
 
 Definition check (c : case) : bool :=
   match c with
-  | CDial ids w accl tr conn tcpe wa =>
-      trace_ok ids w (fun x => existsb (N.eqb x) accl) tr conn tcpe &&
-      oid_eqb wa (match conn with Some i => Some i | None => w end)
+  | CDial ids w T tr conn tcpe wa =>
+      trace_ok ids w T tr conn tcpe &&
+      ohid_eqb wa (match conn with Some i => Some i | None => w end)
   end.
